@@ -40,7 +40,10 @@ func (f *inflight) begin(key string) {
 	}
 	sort.Strings(keys)
 	b, _ := json.Marshal(keys)
-	os.WriteFile(f.path, b, 0o644)
+	// written aside and renamed: the process may exit (logger.Fatal on another goroutine) at any moment
+	if os.WriteFile(f.path+".tmp", b, 0o644) == nil {
+		os.Rename(f.path+".tmp", f.path)
+	}
 }
 
 func (f *inflight) end(key string) {
